@@ -37,6 +37,33 @@ fn assemble<T>(len: usize, len2: usize, res: Result<Option<TraceOut<T>>, u8>) ->
     c
 }
 
+/// What a trusted-length collector does with an iterator (`collect_trusted_to_vec`: allocate the announced number of slots,
+/// then `ptr::write` every item, no bound check) - on a bound-checked, write-recording buffer.  An iterator that yields more
+/// than it announces is a write past the allocation, one that yields less exposes unwritten slots (seed C10-5).
+fn collect_checked<T: Clone, I: Iterator<Item = T>>(it: I) -> TraceOut<T> {
+    let n = it.size_hint().1.unwrap_or(it.size_hint().0);
+    let mut u = TraceOut::<T>::uninit(n);
+    for (i, v) in it.enumerate() {
+        unsafe { u.uset(i, v) }
+    }
+    unsafe { u.assume_init() }
+}
+/// cells of a collected kernel iterator: announced length (= buffer length), input length (view 1), log, slot flags
+fn assemble_collected<T>(len_in: usize, res: Result<TraceOut<T>, u8>) -> Vec<Cell> {
+    let log = take_log();
+    match res {
+        Err(k) => vec![Cell::Int(0), Cell::Int(len_in as i128), Cell::Sep, Cell::Panic(k)],
+        Ok(o) => {
+            let mut c = vec![Cell::Int(o.slots.len() as i128), Cell::Int(len_in as i128), Cell::Sep];
+            c.extend(log.iter().filter_map(enc_acc));
+            c.push(Cell::Sep);
+            c.push(Cell::Int(o.slots.len() as i128));
+            for s in o.slots.iter() { c.push(Cell::Int(if s.is_some() { 1 } else { 0 })) }
+            c
+        }
+    }
+}
+
 fn series(rng: &mut Rng, len: usize) -> Vec<f64> {
     let pat = *rng.pick(&NULL_PATTERNS);
     let m = null_mask(rng, pat, len);
@@ -414,6 +441,27 @@ fn main() {
                             let mut n = 0usize; for _ in v.vpartition(k, sort, rev) { n += 1 }
                             let mut m = 0usize; for _ in v.varg_partition(k, sort, rev) { m += 1 }
                             let _ = (n, m); None })); assemble::<f64>(len, len, r) });
+            }
+        }
+        // the partition iterators collected the way a trusted-length collector does it, for f64 and for Option<f64> series -
+        // "any series": also optional series holding Some(NaN), which `is_none` and `not_none` may see differently
+        {
+            let xo: Vec<Option<f64>> = xs.iter().enumerate().map(|(i, x)| if x.is_nan() { if (i + si) % 3 == 0 { Some(*x) } else { None } } else { Some(*x) }).collect();
+            let xc: Vec<Option<f64>> = xs.iter().map(|x| if x.is_nan() { None } else { Some(*x) }).collect();
+            for k in 0..=len + 1 {
+                for (sort, rev) in [(false, false), (false, true), (true, false), (true, true)] {
+                    let tg = |f: &str, ty: &str| format!("part=kernel fn={} ty={} len={}{}", f, ty, len, if len == 0 { " nt=0" } else { "" });
+                    em.case("custom:direct", &tg("vpartition_collect", "f64"), &format!("fn=vpartition collected k={} sort={} rev={} xs={:?}", k, sort, rev, xs), || "(@nil Z)".to_string(),
+                        || { let _ = take_log(); assemble_collected(len, guarded(std::panic::AssertUnwindSafe(|| { let v = TraceView::new(xs.clone(), 1, 0.0); collect_checked(v.vpartition(k, sort, rev)) }))) });
+                    em.case("custom:direct", &tg("varg_partition_collect", "f64"), &format!("fn=varg_partition collected k={} sort={} rev={} xs={:?}", k, sort, rev, xs), || "(@nil Z)".to_string(),
+                        || { let _ = take_log(); assemble_collected(len, guarded(std::panic::AssertUnwindSafe(|| { let v = TraceView::new(xs.clone(), 1, 0.0); collect_checked(v.varg_partition(k, sort, rev)) }))) });
+                    for (ty, xv) in [("optf64", &xc), ("optf64_somenan", &xo)] {
+                        em.case("custom:direct", &tg("vpartition_collect", ty), &format!("fn=vpartition collected k={} sort={} rev={} xs={:?}", k, sort, rev, xv), || "(@nil Z)".to_string(),
+                            || { let _ = take_log(); assemble_collected(len, guarded(std::panic::AssertUnwindSafe(|| { let v = TraceView::new(xv.clone(), 1, None); collect_checked(v.vpartition(k, sort, rev)) }))) });
+                        em.case("custom:direct", &tg("varg_partition_collect", ty), &format!("fn=varg_partition collected k={} sort={} rev={} xs={:?}", k, sort, rev, xv), || "(@nil Z)".to_string(),
+                            || { let _ = take_log(); assemble_collected(len, guarded(std::panic::AssertUnwindSafe(|| { let v = TraceView::new(xv.clone(), 1, None); collect_checked(v.varg_partition(k, sort, rev)) }))) });
+                    }
+                }
             }
         }
         for q in [0.0, 0.3, 0.5, 0.9, 1.0] {
